@@ -106,6 +106,9 @@ class Quoter:
 
     def in_slashes(self, val: str) -> bool:
         val = val.strip()
+        if len(val) > 2 and val.endswith("/i"):
+            # a case-insensitive regular expression: /pattern/i
+            val = val[:-1]
         return self._in_quotes(val, "/")
 
     def standardise_quotes(self, val: str) -> str:
